@@ -463,6 +463,10 @@ func (m *csim) indexOf(mod *modgen.Module) int {
 // ---- crash snapshots: every distinct disk state is a crash state ----
 
 func (m *csim) snapshot(op sched.Op) {
+	if m.u.Big && m.s.Steps%29 != 0 {
+		// (a module of hundreds of files: every step is a new state; one crash point in 29 is recovered from)
+		return
+	}
 	st, err := simfs.DirState(m.root)
 	if err != nil {
 		return
@@ -1261,11 +1265,16 @@ func Run(tp *tape.Tape, env *engine.Env) *engine.Outcome {
 	verifhook.SetHandler(hooks)
 	defer verifhook.SetHandler(nil)
 	m := &csim{tp: tp, s: s, env: env, hooks: hooks, tainted: map[int]bool{}, counters: map[string]int{}, crashStates: map[string]struct{}{}, cancels: map[string]context.CancelFunc{}, cancelled: map[string]bool{}}
-	u, err := modgen.New(tp, modgen.Options{MaxModules: 4, MaxFiles: 4, AllowB4: true, Extras: true})
+	u, err := modgen.New(tp, modgen.Options{MaxModules: 4, MaxFiles: 4, AllowB4: true, Extras: true, BigOdds: 25})
 	if err != nil {
 		panic(err)
 	}
 	m.u = u
+	if u.Big {
+		// several hundred files in one module: every store is some thousand steps
+		s.MaxSteps = 120000
+		s.Probe("module-with-hundreds-of-files")
+	}
 	m.tar = tp.Draw("tar", 4) == 3
 	m.root = filepath.Join(env.Scratch, "cache")
 	m.modRel, m.comRel = "modules", "commits"
